@@ -761,3 +761,140 @@ Section Draw.
       induction HB as [|row body Hrow _ IH]; cbn [map]; constructor; [apply draw_row_f_ok; assumption|exact IH].
   Qed.
 End Draw.
+
+(* ================================================================ E. the theorems *)
+Lemma table_lines_width s n header ind st al : wf_style s -> (1 <= n)%nat -> 0 <= ind -> INV n st -> length al = n ->
+  Forall (fun l => zlen l = full_width s (f_cols st) ind) (table_lines s header ind st al).
+Proof.
+  intros Hwf Hn Hind HI Hal. unfold table_lines.
+  pose proof (inv_cells_fit _ _ HI) as CF. pose proof (inv_len _ _ HI) as Hlen. pose proof (inv_nonneg _ _ HI) as Hnn.
+  assert (Hne : f_cols st <> []) by (destruct (f_cols st); [cbn in Hlen; lia|congruence]).
+  pose proof Hwf as (Hp & Hfmt & B1 & B2 & B3).
+  assert (Hh : zlen (t_hpre s) + zlen (t_hsuf s) = excess s) by (unfold excess; rewrite !zlen_app in *; lia).
+  assert (Hc : zlen (t_cpre s) + zlen (t_csuf s) = excess s) by (unfold excess; rewrite !zlen_app in *; lia).
+  assert (Hrow : forall pre suf row, zlen pre + zlen suf = excess s -> In row (f_rows st) ->
+                 Forall (fun l => zlen l = full_width s (f_cols st) ind) (row_lines (t_border s) pre suf (t_pad s) ind row (f_cols st) al)).
+  { intros pre suf row He Hin. unfold cells_fit in CF. rewrite Forall_forall in CF. specialize (CF row Hin).
+    apply row_lines_width; auto; [|congruence]. intros ->. inversion CF as [E|]; subst. congruence. }
+  repeat (apply Forall_app; split).
+  - apply border_lines_width; assumption.
+  - destruct header as [|h0 hs]; [constructor|]. apply Forall_app; split.
+    + destruct (f_rows st) as [|row rs] eqn:R; [constructor|]. cbn [hd]. apply Hrow; [exact Hh|left; reflexivity].
+    + apply border_lines_width; assumption.
+  - apply Forall_flat_map. apply Forall_forall. intros row Hin. apply Hrow; [exact Hc|].
+    destruct header; [exact Hin|]. destruct (f_rows st); [destruct Hin|right; exact Hin].
+  - apply border_lines_width; assumption.
+Qed.
+
+(* the visible text of what was written: the SGR sequences removed *)
+Lemma items_visible on f Xs PLs : Forall2 (line_item on f) Xs PLs ->
+  exists vs, strips (concat Xs) (flat_map (fun v => v ++ [10%N]) vs) /\
+             (decorated on f = false -> concat Xs = flat_map (fun v => v ++ [10%N]) vs) /\
+             Forall2 (fun v PL => exists sp, PL = v ++ sp /\ Forall (fun c => is_space c = true) sp) vs PLs.
+Proof.
+  induction 1 as [|X PL Xs PLs (v & sp & S & D & E & F) _ (vs & S2 & D2 & F2)].
+  - exists []. repeat split; constructor.
+  - exists (v :: vs). cbn [concat flat_map]. split; [apply strips_app; assumption|]. split.
+    + intros Hd. rewrite (D Hd), (D2 Hd). reflexivity.
+    + constructor; [exists sp; auto|exact F2].
+Qed.
+
+Section Main.
+  Variable share : Z -> Z -> Z -> Z.
+  Variables (on : bool) (f : formatter).
+  Hypothesis Hk : f_kind f <> FNull.
+
+  (* the cells of the table as CellWrapper holds them, and their visible texts *)
+  Definition table_cells (header : list str) (rows : list (list str)) : list str := map t_rstrip (header ++ concat rows).
+
+  (* what render_table_f writes is, line by line, the tag-free table of the visible texts of the cells *)
+  Theorem table_visible_commutes s n header rows W ind st text :
+    inert_style s -> rows <> [] -> Forall (good_cell f) (table_cells header rows) ->
+    render_table_f share on f s n header rows W ind = Ok (st, text) ->
+    let cs := map (vis f) (table_cells header rows) in
+    exists al Xs,
+      render_pure (fun _ => false) share s n header cs (map zlen cs) W ind
+        = Ok (vst f st, strip_lines (table_lines s header ind (vst f st) al)) /\
+      length al = length (f_cols st) /\
+      text = concat Xs /\ Forall2 (line_item on f) Xs (table_lines s header ind (vst f st) al).
+  Proof.
+    intros Hs Hne HG H cs. unfold render_table_f in H. destruct rows as [|r0 rows]; [congruence|].
+    unfold fit_f in H. fold (table_cells header (r0 :: rows)) in H. set (cs0 := table_cells header (r0 :: rows)) in *.
+    assert (E : (do x <- (do m <- measure f cs0; do st <- fit_g has_lt share (available_width s W ind (Z.of_nat n)) n cs0 (snd m); Ok (fst m, st));
+                 do al <- alignments s (length (f_cols (snd x))); do d <- draw_table_f on s header ind (snd x) al (fst x); Ok (snd x, snd d)) = Ok (st, text)).
+    { destruct n; [|exact H]. destruct cs0; [exact H|discriminate]. }
+    clear H. rewrite (measure_good f cs0 HG) in E. cbn [bind fst snd] in E.
+    replace (map (fun c => zlen (vis f c)) cs0) with (map zlen cs) in E by (unfold cs; now rewrite map_map).
+    destruct (fit_g has_lt share (available_width s W ind (Z.of_nat n)) n cs0 (map zlen cs)) as [st0|k] eqn:F; cbn [bind fst snd] in E; [|discriminate].
+    destruct (alignments s (length (f_cols st0))) as [al|k] eqn:A; cbn [bind] in E; [|discriminate].
+    pose proof (fit_g_good f share _ _ _ _ _ HG F) as RG.
+    destruct (draw_table_f_ok on f Hk s header ind st0 al Hs RG) as (Xs & D & I). rewrite D in E. cbn [bind fst snd] in E.
+    injection E as <- <-. exists al, Xs. split; [|split; [exact (alignments_length _ _ _ A)|split; [reflexivity|exact I]]].
+    unfold render_pure. subst cs. rewrite (fit_g_sim f share _ _ _ _ _ F). cbn [bind]. change (f_cols (vst f st0)) with (f_cols st0).
+    rewrite A. cbn [bind]. now rewrite draw_table_lines.
+  Qed.
+
+  (* a rectangle within the terminal: the visible text of every line, followed by white space, has the table's width *)
+  Theorem table_rect_tagged s n header rows W ind st text :
+    wf_style s -> inert_style s -> (1 <= n)%nat -> 0 <= ind -> rows <> [] ->
+    Z.of_nat n <= available_width s W ind (Z.of_nat n) ->
+    Forall (good_cell f) (table_cells header rows) ->
+    render_table_f share on f s n header rows W ind = Ok (st, text) ->
+    (exists vs, strip_sgr text = flat_map (fun v => v ++ [10%N]) vs /\
+                (decorated on f = false -> text = flat_map (fun v => v ++ [10%N]) vs) /\
+                Forall (fun v => exists sp, Forall (fun c => is_space c = true) sp /\ zlen (v ++ sp) = full_width s (f_cols st) ind) vs) /\
+    full_width s (f_cols st) ind <= W /\ length (f_cols st) = n.
+  Proof.
+    intros Hwf Hs Hn Hind Hne Hg HG H.
+    destruct (table_visible_commutes s n header rows W ind st text Hs Hne HG H) as (al & Xs & P & Hal & -> & I).
+    set (cs := map (vis f) (table_cells header rows)) in *.
+    destruct (fit_g_spec wrap_lines_fit_lemma wrap_total_lemma share _ n cs Hn Hg) as (st1 & F1 & HI & Hsum).
+    unfold render_pure in P. rewrite F1 in P. cbn [bind] in P.
+    destruct (alignments s (length (f_cols st1))) as [al1|k]; cbn [bind] in P; [|discriminate]. injection P as E1 _.
+    rewrite E1 in HI, Hsum. change (f_cols (vst f st)) with (f_cols st) in *.
+    pose proof (inv_len _ _ HI) as Hlen. change (f_cols (vst f st)) with (f_cols st) in Hlen.
+    pose proof (table_lines_width s n header ind (vst f st) al Hwf Hn Hind HI ltac:(lia)) as HW. change (f_cols (vst f st)) with (f_cols st) in HW.
+    destruct (items_visible on f Xs _ I) as (vs & S & D & F2).
+    split; [|split; [|exact Hlen]].
+    - exists vs. split; [apply strips_sgr_strip, S|]. split; [exact D|].
+      clear -F2 HW. induction F2 as [|v PL vs PLs (sp & -> & Fsp) _ IH]; [constructor|].
+      apply Forall_cons_iff in HW as [H1 H2]. constructor; [exists sp; auto|auto].
+    - unfold full_width. rewrite zsum_map_add, Hlen. unfold available_width, border_width in *. lia.
+  Qed.
+
+  (* every cell keeps its visible text: the rows CellWrapper holds are, cell by cell and white space aside, the
+     visible texts of the table's cells, and the visible lines are those of the tag-free table drawn from them *)
+  Lemma Forall2_map2 {X Y X' Y'} (R : X' -> Y' -> Prop) (g : X -> X') (h : Y -> Y') a b :
+    Forall2 R (map g a) (map h b) -> Forall2 (fun x y => R (g x) (h y)) a b.
+  Proof.
+    revert b; induction a as [|x a IH]; intros [|y b] H; cbn [map] in H; inversion H; subst; constructor; auto.
+  Qed.
+  Theorem table_keeps_text_tagged s n header rows W ind st text :
+    inert_style s -> (1 <= n)%nat -> rows <> [] ->
+    Forall (fun r => length r = n) rows -> (header = [] \/ length header = n) ->
+    Forall (good_cell f) (table_cells header rows) ->
+    render_table_f share on f s n header rows W ind = Ok (st, text) ->
+    Forall2 (Forall2 (fun wrapped cell => filter nsp (vis f wrapped) = filter nsp (vis f (t_rstrip cell))))
+            (f_rows st) (match header with [] => rows | _ => header :: rows end) /\
+    exists al vs, strip_sgr text = flat_map (fun v => v ++ [10%N]) vs /\
+                  Forall2 (fun v PL => exists sp, PL = v ++ sp /\ Forall (fun c => is_space c = true) sp) vs
+                          (table_lines s header ind (vst f st) al).
+  Proof.
+    intros Hs Hn Hne Hrows Hhdr HG H.
+    destruct (table_visible_commutes s n header rows W ind st text Hs Hne HG H) as (al & Xs & P & Hal & -> & I).
+    split.
+    - set (X := match header with [] => rows | _ => header :: rows end).
+      assert (HX : Forall (fun r => length r = n) X).
+      { unfold X. destruct header as [|h hs]; [exact Hrows|]. constructor; [destruct Hhdr; [discriminate|assumption]|exact Hrows]. }
+      assert (EX : header ++ concat rows = concat X) by (unfold X; destruct header; reflexivity).
+      assert (EC : map (vis f) (table_cells header rows) = concat (map (map (fun c => vis f (t_rstrip c))) X)).
+      { unfold table_cells. rewrite EX, map_map, concat_map. reflexivity. }
+      rewrite EC in P.
+      assert (HX' : Forall (fun r => length r = n) (map (map (fun c => vis f (t_rstrip c))) X)).
+      { clear -HX. induction HX; cbn [map]; constructor; auto. rewrite map_length. assumption. }
+      pose proof (table_keeps_pure wrap_lines_fit_lemma wrap_keeps_text_lemma share _ s n header _ W ind _ _ Hn HX' P) as K.
+      unfold rows_same in K. cbn [vst f_rows] in K. apply Forall2_map2 in K.
+      clear -K. induction K as [|r r' a b Hr _ IH]; constructor; [|exact IH]. apply Forall2_map2 in Hr. exact Hr.
+    - destruct (items_visible on f Xs _ I) as (vs & S & _ & F2). exists al, vs. split; [apply strips_sgr_strip, S|exact F2].
+  Qed.
+End Main.
